@@ -1,4 +1,6 @@
 import Model.Spec
+import Proofs.Map
+import Proofs.Chain
 
 /-!
 # C04 — fork choice: the head is the first-seen block of greatest total work (height)
@@ -16,13 +18,72 @@ variable (C : Crypto)
 theorem blocks_are_history (bs : List Block) (s : CoinState) (hwf : WFArrivals C bs)
     (hf : foldBlocks C .empty bs = .ok s) (id : Bytes) (b : Block) :
     s.blocks.get? id = some b ↔ (b ∈ bs ∧ b.id C = id) := by
-  sorry
+  induction hwf generalizing s with
+  | genesis g h1 h2 h3 =>
+    obtain ⟨hb, -⟩ := add_ok_inv C (foldBlocks_single_ok C hf)
+    rw [hb, Map.get?_set]
+    simp only [CoinState.empty, Map.get?_nil, List.mem_singleton]
+    by_cases hid : g.id C = id
+    · simp only [hid, ↓reduceIte, Option.some.injEq]
+      constructor
+      · intro h; subst h; exact ⟨rfl, hid⟩
+      · intro h; exact h.1.symm
+    · simp only [hid, ↓reduceIte, reduceCtorEq, false_iff]
+      rintro ⟨h, h'⟩; subst h; exact hid h'
+  | snoc bs x p hwf hp hprev hht hnz hfresh ih =>
+    obtain ⟨s₀, hf₀, ha⟩ := foldBlocks_snoc_ok C hf
+    obtain ⟨hb, -⟩ := add_ok_inv C ha
+    rw [hb, Map.get?_set]
+    simp only [List.mem_append, List.mem_singleton]
+    by_cases hid : x.id C = id
+    · simp only [hid, ↓reduceIte, Option.some.injEq]
+      constructor
+      · intro h; subst h; exact ⟨Or.inr rfl, hid⟩
+      · rintro ⟨h | h, h'⟩
+        · exact absurd (h'.trans hid.symm) (hfresh b h)
+        · exact h.symm
+    · simp only [hid, ↓reduceIte]
+      rw [ih s₀ hf₀]
+      constructor
+      · rintro ⟨h, h'⟩; exact ⟨Or.inl h, h'⟩
+      · rintro ⟨h | h, h'⟩
+        · exact ⟨h, h'⟩
+        · subst h; exact absurd h' hid
 
 /-- the active head is the earliest-arrived block among those of greatest height -/
 theorem head_is_first_max (bs : List Block) (s : CoinState) (hwf : WFArrivals C bs)
     (hf : foldBlocks C .empty bs = .ok s) :
     s.current = (firstMax bs).map (·.id C) := by
-  sorry
+  induction hwf generalizing s with
+  | genesis g h1 h2 h3 =>
+    obtain ⟨-, -, -, -, hc, -⟩ := add_ok_inv C (foldBlocks_single_ok C hf)
+    rw [hc rfl]; rfl
+  | snoc bs x p hwf hp hprev hht hnz hfresh ih =>
+    obtain ⟨s₀, hf₀, ha⟩ := foldBlocks_snoc_ok C hf
+    obtain ⟨-, -, -, -, -, hc1, hc2⟩ := add_ok_inv C ha
+    have F := hwf.facts C
+    have hcur := ih s₀ hf₀
+    rw [firstMax_snoc]
+    cases hm : firstMax bs with
+    | none => exact absurd hm (firstMax_ne_none F.ne)
+    | some m =>
+      have hmem := firstMax_mem hm
+      rw [hm] at hcur
+      simp only [Option.map_some] at hcur
+      have hget : s₀.blocks.get? (m.id C) = some m :=
+        (blocks_are_history C bs s₀ hwf hf₀ (m.id C) m).2 ⟨hmem, rfl⟩
+      by_cases hmp : m.id C = x.prev
+      · rw [hc1 _ hcur hmp]
+        have : m = p := F.inj m hmem p hp (hmp.trans hprev)
+        subst this
+        have : x.height > m.height := by omega
+        simp only [this, ↓reduceIte, Option.map_some]
+      · obtain ⟨cb, hcb, hc⟩ := hc2 _ hcur hmp
+        rw [hget] at hcb
+        simp only [Option.some.injEq] at hcb
+        subst hcb
+        rw [hc]
+        by_cases hgt : x.height > m.height <;> simp only [hgt, ↓reduceIte, Option.map_some]
 
 /-- so the head never switches between equally good tips: a block that is not higher than the
 current head and does not extend it leaves the head where it is -/
@@ -30,20 +91,135 @@ theorem head_stable_on_ties (cs cs' : CoinState) (b hd : Block) (c : Bytes)
     (hc : cs.current = some c) (hh : cs.blocks.get? c = some hd) (hne : c ≠ b.prev)
     (hle : b.height ≤ hd.height) (ha : addBlockNoValidation C cs b = .ok cs') :
     cs'.current = some c := by
-  sorry
+  obtain ⟨-, -, -, -, -, -, hc2⟩ := add_ok_inv C ha
+  obtain ⟨cb, hcb, hcur⟩ := hc2 c hc hne
+  rw [hh] at hcb
+  simp only [Option.some.injEq] at hcb
+  subst hcb
+  have : ¬ b.height > hd.height := by omega
+  rw [hcur]
+  simp only [this, ↓reduceIte]
 
 /-- the reported tips are exactly the stored blocks without stored children -/
 theorem heads_are_leaves (bs : List Block) (s : CoinState) (hwf : WFArrivals C bs)
     (hf : foldBlocks C .empty bs = .ok s) (id : Bytes) :
     s.heads.contains id = true ↔ (∃ b ∈ bs, b.id C = id ∧ ∀ c ∈ bs, c.prev ≠ id) := by
-  sorry
+  induction hwf generalizing s with
+  | genesis g h1 h2 h3 =>
+    obtain ⟨-, hh, -⟩ := add_ok_inv C (foldBlocks_single_ok C hf)
+    rw [hh, Map.contains_set, Map.contains_ite_erase]
+    simp only [CoinState.empty, Map.contains_nil, Bool.and_false, Bool.or_false,
+      decide_eq_true_eq, List.mem_singleton, exists_eq_left, forall_eq]
+    constructor
+    · intro h; refine ⟨h, ?_⟩; rw [h1, ← h]; exact h3.symm
+    · intro h; exact h.1
+  | snoc bs x p hwf hp hprev hht hnz hfresh ih =>
+    obtain ⟨s₀, hf₀, ha⟩ := foldBlocks_snoc_ok C hf
+    obtain ⟨-, hh, -⟩ := add_ok_inv C ha
+    have F := hwf.facts C
+    rw [hh, Map.contains_set, Map.contains_ite_erase]
+    simp only [Bool.or_eq_true, Bool.and_eq_true, decide_eq_true_eq, ih s₀ hf₀]
+    constructor
+    · rintro (h | ⟨h, y, hy, hyid, hall⟩)
+      · refine ⟨x, List.mem_append_right _ (List.mem_singleton.2 rfl), h, ?_⟩
+        intro c hc
+        rw [← h]
+        rcases List.mem_append.1 hc with hc | hc
+        · rcases F.par c hc with ⟨hz, -⟩ | ⟨q, hq, hcq, -⟩
+          · rw [hz]; exact hnz.symm
+          · rw [hcq]; exact hfresh q hq
+        · rw [List.mem_singleton.1 hc, hprev]; exact hfresh p hp
+      · refine ⟨y, List.mem_append_left _ hy, hyid, ?_⟩
+        intro c hc
+        rcases List.mem_append.1 hc with hc | hc
+        · exact hall c hc
+        · rw [List.mem_singleton.1 hc]; exact fun e => h e.symm
+    · rintro ⟨y, hy, hyid, hall⟩
+      rcases List.mem_append.1 hy with hy | hy
+      · right
+        refine ⟨?_, y, hy, hyid, fun c hc => hall c (List.mem_append_left _ hc)⟩
+        exact fun e => hall x (List.mem_append_right _ (List.mem_singleton.2 rfl)) e.symm
+      · left
+        rw [← List.mem_singleton.1 hy]; exact hyid
 
 /-- the by-height index at every block lists exactly that block's ancestors and itself -/
 theorem index_is_ancestors (bs : List Block) (s : CoinState) (hwf : WFArrivals C bs)
     (hf : foldBlocks C .empty bs = .ok s) (b : Block) (hb : b ∈ bs) (h : Nat) (a : Block) :
     ((s.byHeightAt.get? (b.id C)).bind (·.get? h) = some a) ↔
       (a ∈ chainOf C bs bs.length b ∧ a.height = h) := by
-  sorry
+  induction hwf generalizing s b with
+  | genesis g h1 h2 h3 =>
+    obtain ⟨-, -, hbh, -⟩ := add_ok_inv C (foldBlocks_single_ok C hf)
+    rw [List.mem_singleton.1 hb, hbh h1]
+    simp only [Map.get?_cons, ↓reduceIte, Option.bind_some, Map.get?_nil, List.length_singleton,
+      chainOf, h1, List.mem_singleton]
+    by_cases h0 : 0 = h
+    · simp only [h0, ↓reduceIte, Option.some.injEq]
+      constructor
+      · intro e; subst e; exact ⟨rfl, h0 ▸ h2⟩
+      · intro e; exact e.1.symm
+    · simp only [h0, ↓reduceIte, reduceCtorEq, false_iff]
+      rintro ⟨e, e'⟩; subst e; exact h0 (h2.symm.trans e')
+  | snoc bs x p hwf hp hprev hht hnz hfresh ih =>
+    obtain ⟨s₀, hf₀, ha⟩ := foldBlocks_snoc_ok C hf
+    have F := hwf.facts C
+    have hz : x.prev ≠ zeros 32 := by rw [hprev]; exact F.nz p hp
+    obtain ⟨-, -, -, hbh, -⟩ := add_ok_inv C ha
+    obtain ⟨bh, hbhp, hbh⟩ := hbh hz
+    rw [hbh, Map.get?_set]
+    rcases List.mem_append.1 hb with hb | hb
+    · have hne : x.id C ≠ b.id C := fun e => hfresh b hb e.symm
+      simp only [hne, ↓reduceIte]
+      rw [chainOf_snoc_old C F x hb]
+      exact ih s₀ hf₀ b hb
+    · rw [List.mem_singleton.1 hb]
+      simp only [↓reduceIte, Option.bind_some]
+      rw [chainOf_snoc_new C F hp hprev, Map.get?_set]
+      have ihp := ih s₀ hf₀ p hp
+      rw [← hprev, hbhp] at ihp
+      simp only [Option.bind_some] at ihp
+      simp only [List.mem_append, List.mem_singleton]
+      by_cases hh : x.height = h
+      · simp only [hh, ↓reduceIte, Option.some.injEq]
+        constructor
+        · intro e; subst e; exact ⟨Or.inr rfl, hh⟩
+        · rintro ⟨e | e, e'⟩
+          · have := chainOf_height_le C F _ hp e
+            omega
+          · exact e.symm
+      · simp only [hh, ↓reduceIte]
+        rw [ihp]
+        constructor
+        · rintro ⟨e, e'⟩; exact ⟨Or.inl e, e'⟩
+        · rintro ⟨e | e, e'⟩
+          · exact ⟨e, e'⟩
+          · subst e; exact absurd e' hh
+
+/-! ## non-vacuity: the hypotheses `WFArrivals C bs` and `foldBlocks C .empty bs = .ok s` are
+satisfiable -/
+
+/-- for every `Crypto` there is a well-formed two-block history (a genesis block and a child,
+both carrying cached hashes as blocks read from the wire or the block store do) whose arrivals
+all succeed -/
+example : ∃ (bs : List Block) (s : CoinState),
+    WFArrivals C bs ∧ foldBlocks C .empty bs = .ok s ∧ bs.length = 2 := by
+  let cb : CTx := ⟨⟨[], [⟨10, [5]⟩]⟩, some [7]⟩
+  let g : Block := ⟨⟨⟨0, zeros 32, [], 0, [], 0⟩, ⟨[], [], []⟩⟩, [cb], some [1]⟩
+  let b₁ : Block := ⟨⟨⟨1, [1], [], 0, [], 0⟩, ⟨[], [], []⟩⟩, [cb], some [2]⟩
+  have hg : WFArrivals C [g] := .genesis g rfl rfl
+    (by show ([1] : Bytes) ≠ zeros 32; decide)
+  have hwf : WFArrivals C ([g] ++ [b₁]) :=
+    .snoc [g] b₁ g hg (List.mem_singleton.2 rfl) rfl rfl
+      (by show ([2] : Bytes) ≠ zeros 32; decide)
+      (by intro c hc; rw [List.mem_singleton.1 hc]; show ([1] : Bytes) ≠ [2]; decide)
+  exact ⟨[g] ++ [b₁], _, hwf, rfl, rfl⟩
+
+/-- a concrete `Crypto` instance and a genesis block without cached hash -/
+example : ∃ (bs : List Block) (s : CoinState),
+    WFArrivals ⟨fun _ => [1], fun _ => [], fun _ _ => [], fun _ _ _ => true⟩ bs ∧
+    foldBlocks ⟨fun _ => [1], fun _ => [], fun _ _ => [], fun _ _ _ => true⟩ .empty bs = .ok s := by
+  let g : Block := ⟨⟨⟨0, zeros 32, [], 0, [], 0⟩, ⟨[], [], []⟩⟩, [⟨⟨[], [⟨10, [5]⟩]⟩, none⟩], none⟩
+  exact ⟨[g], _, .genesis g rfl rfl (by decide), rfl⟩
 
 end C04
 end Model
